@@ -15,6 +15,18 @@ import (
 func (r *Runner) sample() {
 	r.sampleCommit()
 	r.sampleProfile()
+	r.W.Mu.Lock()
+	due, on := r.verifyAt != 0 && r.W.Now() >= r.verifyAt, r.verifyOn
+	if due {
+		r.verifyAt = 0
+	}
+	r.W.Mu.Unlock()
+	if due {
+		if in := r.liveByID(on); in != nil && in.R.State() == raft.Leader {
+			r.doVerify(in)
+			r.feat("verify-while-a-snapshot-is-in-flight")
+		}
+	}
 }
 
 // sampleCommit runs at every quiescent point between two delivery rounds
